@@ -1,10 +1,15 @@
+import GrinVerif.Gen.SerImpls
 /-! # Inventory of the `Readable` / `Writeable` impls of the source tree and what covers each
-(see `notes/decser_scratch/gen_impls.py`; fingerprints = FNV-1a 64 of the impl block without white
-space, recomputed from the current source by the `impls` run of the `ser` harness on every check).
-`cover` is maintained by hand: which codec of the driver compares this impl byte for byte (`codec`),
-which codec reads it as one of its fields (`inside`), which plain codec a read-time validation wrapper
-sits on (`wrapper`, the wrapper itself is a C11 model), which other driver op (`op`), or why it is
-left out (`excluded`). Obligations about the table: `Props/C10Impls.lean`. -/
+
+HAND-MAINTAINED (a fresh copy is printed by `python3 tools/gen_serimpls.py --model`, to be reviewed).
+`Gen/SerImpls.lean` is what tools/gen_serimpls.py FINDS in the current source on every check run;
+this table is what was READ AGAINST THE MODEL: the pinned fingerprint of each impl (FNV-1a 64 of its
+text without comments and white space) and what covers it - which codec of the driver compares it byte
+for byte (`codec`), which codec reads it as one of its fields (`inside`), which plain codec a read-time
+validation wrapper sits on (`wrapper`, the wrapper itself is a C11 model), which other driver op (`op`),
+or why it is left out (`excluded`).  `Props/C10Impls.lean` decides that the two agree
+(`inventory_matches_source`): a new, removed or changed impl breaks that obligation until somebody has
+re-read it and updated the pin. -/
 namespace GV.SerImpls
 
 inductive Cover
@@ -30,82 +35,24 @@ def table : List Impl := [
   { kind := "R", file := "chain/src/linked_list.rs", ty := "ListWrapperVariant", fp := 9652261409034233062, cover := .inside "NrdList" },
   { kind := "W", file := "chain/src/linked_list.rs", ty := "ListEntryVariant", fp := 2951883721613307759, cover := .inside "NrdEntry" },
   { kind := "R", file := "chain/src/linked_list.rs", ty := "ListEntryVariant", fp := 14024113976121728717, cover := .inside "NrdEntry" },
-  { kind := "W", file := "chain/src/linked_list.rs", ty := "ListWrapper<T>", fp := 15871481098471908995, cover := .codec "NrdList" },
-  { kind := "R", file := "chain/src/linked_list.rs", ty := "ListWrapper<T>", fp := 17410236230215593822, cover := .codec "NrdList" },
-  { kind := "W", file := "chain/src/linked_list.rs", ty := "ListEntry<T>", fp := 12020132502989179167, cover := .codec "NrdEntry" },
-  { kind := "R", file := "chain/src/linked_list.rs", ty := "ListEntry<T>", fp := 15960475965949660393, cover := .codec "NrdEntry" },
+  { kind := "W", file := "chain/src/linked_list.rs", ty := "ListWrapper<T>", fp := 599418080556100305, cover := .codec "NrdList" },
+  { kind := "R", file := "chain/src/linked_list.rs", ty := "ListWrapper<T>", fp := 8240521444885256851, cover := .codec "NrdList" },
+  { kind := "W", file := "chain/src/linked_list.rs", ty := "ListEntry<T>", fp := 14622311150670642393, cover := .codec "NrdEntry" },
+  { kind := "R", file := "chain/src/linked_list.rs", ty := "ListEntry<T>", fp := 1253075557626679656, cover := .codec "NrdEntry" },
   { kind := "R", file := "chain/src/store.rs", ty := "BoolFlag", fp := 7992103352621372265, cover := .excluded "private to chain/src/store.rs and never constructed; modelled (decBoolFlag), theorems only" },
   { kind := "W", file := "chain/src/store.rs", ty := "BoolFlag", fp := 8882925415736171010, cover := .excluded "private to chain/src/store.rs and never constructed; modelled (decBoolFlag), theorems only" },
-  { kind := "W", file := "chain/src/txhashset/bitmap_accumulator.rs", ty := "BitmapChunk", fp := 5303563164198709721, cover := .excluded "read() returns an empty chunk without reading anything; only elmt_size() is compared" },
-  { kind := "R", file := "chain/src/txhashset/bitmap_accumulator.rs", ty := "BitmapChunk", fp := 6231894770577081000, cover := .excluded "read() returns an empty chunk without reading anything; only elmt_size() is compared" },
-  { kind := "W", file := "chain/src/txhashset/bitmap_accumulator.rs", ty := "BitmapSegment", fp := 2875939427393187373, cover := .codec "BitmapSegment" },
-  { kind := "R", file := "chain/src/txhashset/bitmap_accumulator.rs", ty := "BitmapSegment", fp := 11021311911446069678, cover := .codec "BitmapSegment" },
-  { kind := "W", file := "chain/src/txhashset/bitmap_accumulator.rs", ty := "BitmapBlock", fp := 761714846514963145, cover := .inside "BitmapSegment" },
-  { kind := "R", file := "chain/src/txhashset/bitmap_accumulator.rs", ty := "BitmapBlock", fp := 11438401496561062404, cover := .inside "BitmapSegment" },
-  { kind := "W", file := "chain/src/txhashset/bitmap_accumulator.rs", ty := "BitmapBlockSerialization", fp := 3467635176838667750, cover := .inside "BitmapSegment" },
-  { kind := "R", file := "chain/src/txhashset/bitmap_accumulator.rs", ty := "BitmapBlockSerialization", fp := 1629149026705705266, cover := .inside "BitmapSegment" },
   { kind := "R", file := "chain/src/types.rs", ty := "CommitPos", fp := 4267695760669220921, cover := .codec "CommitPos" },
   { kind := "W", file := "chain/src/types.rs", ty := "CommitPos", fp := 2518588250591430628, cover := .codec "CommitPos" },
   { kind := "W", file := "chain/src/types.rs", ty := "Tip", fp := 1561020854240055515, cover := .codec "Tip" },
   { kind := "R", file := "chain/src/types.rs", ty := "Tip", fp := 5982791415062929752, cover := .codec "Tip" },
-  { kind := "R", file := "core/src/core/block.rs", ty := "HeaderEntry", fp := 8504961823389152160, cover := .codec "HeaderEntry" },
-  { kind := "W", file := "core/src/core/block.rs", ty := "HeaderEntry", fp := 16236292232682272429, cover := .codec "HeaderEntry" },
-  { kind := "W", file := "core/src/core/block.rs", ty := "HeaderVersion", fp := 5028581958960092399, cover := .inside "BlockHeader" },
-  { kind := "R", file := "core/src/core/block.rs", ty := "HeaderVersion", fp := 959448273804940639, cover := .inside "BlockHeader" },
-  { kind := "W", file := "core/src/core/block.rs", ty := "BlockHeader", fp := 15664148342584641733, cover := .codec "BlockHeader" },
-  { kind := "R", file := "core/src/core/block.rs", ty := "BlockHeader", fp := 4137684409274746927, cover := .codec "BlockHeader" },
-  { kind := "R", file := "core/src/core/block.rs", ty := "UntrustedBlockHeader", fp := 15545570839313820406, cover := .wrapper "BlockHeader" },
-  { kind := "W", file := "core/src/core/block.rs", ty := "Block", fp := 943965860143290480, cover := .codec "Block" },
-  { kind := "R", file := "core/src/core/block.rs", ty := "Block", fp := 16231659000947403341, cover := .codec "Block" },
-  { kind := "R", file := "core/src/core/block.rs", ty := "UntrustedBlock", fp := 3402497739536577489, cover := .wrapper "Block" },
-  { kind := "W", file := "core/src/core/block_sums.rs", ty := "BlockSums", fp := 12298247856613963112, cover := .codec "BlockSums" },
-  { kind := "R", file := "core/src/core/block_sums.rs", ty := "BlockSums", fp := 10695976682704742528, cover := .codec "BlockSums" },
-  { kind := "R", file := "core/src/core/compact_block.rs", ty := "CompactBlockBody", fp := 7806506951745842595, cover := .inside "CompactBlock" },
-  { kind := "W", file := "core/src/core/compact_block.rs", ty := "CompactBlockBody", fp := 95652237703713746, cover := .inside "CompactBlock" },
-  { kind := "W", file := "core/src/core/compact_block.rs", ty := "CompactBlock", fp := 15812745975744560839, cover := .codec "CompactBlock" },
-  { kind := "R", file := "core/src/core/compact_block.rs", ty := "CompactBlock", fp := 12830994331310565096, cover := .codec "CompactBlock" },
-  { kind := "R", file := "core/src/core/compact_block.rs", ty := "UntrustedCompactBlock", fp := 13073654195143512328, cover := .wrapper "CompactBlock" },
-  { kind := "R", file := "core/src/core/hash.rs", ty := "Hash", fp := 11627468342407622040, cover := .codec "Hash" },
-  { kind := "W", file := "core/src/core/hash.rs", ty := "Hash", fp := 13521579811745524968, cover := .codec "Hash" },
-  { kind := "R", file := "core/src/core/id.rs", ty := "ShortId", fp := 8505078503105001035, cover := .codec "ShortId" },
-  { kind := "W", file := "core/src/core/id.rs", ty := "ShortId", fp := 392076427147519451, cover := .codec "ShortId" },
-  { kind := "W", file := "core/src/core/merkle_proof.rs", ty := "MerkleProof", fp := 17974608847545958878, cover := .codec "MerkleProof" },
-  { kind := "R", file := "core/src/core/merkle_proof.rs", ty := "MerkleProof", fp := 2924978894706595907, cover := .codec "MerkleProof" },
-  { kind := "R", file := "core/src/core/pmmr/segment.rs", ty := "SegmentIdentifier", fp := 9801041526371888072, cover := .codec "SegmentIdentifier" },
-  { kind := "W", file := "core/src/core/pmmr/segment.rs", ty := "SegmentIdentifier", fp := 16461452423547564364, cover := .codec "SegmentIdentifier" },
-  { kind := "R", file := "core/src/core/pmmr/segment.rs", ty := "Segment<T>", fp := 403322782260545057, cover := .codec "KernelSegment" },
-  { kind := "W", file := "core/src/core/pmmr/segment.rs", ty := "Segment<T>", fp := 11636983310009263287, cover := .codec "KernelSegment" },
-  { kind := "R", file := "core/src/core/pmmr/segment.rs", ty := "SegmentProof", fp := 12004981906853538518, cover := .codec "SegmentProof" },
-  { kind := "W", file := "core/src/core/pmmr/segment.rs", ty := "SegmentProof", fp := 4388081014812089761, cover := .codec "SegmentProof" },
-  { kind := "W", file := "core/src/core/transaction.rs", ty := "FeeFields", fp := 14789684241461620416, cover := .inside "KernelFeatures" },
-  { kind := "R", file := "core/src/core/transaction.rs", ty := "FeeFields", fp := 17302961453335967290, cover := .inside "KernelFeatures" },
-  { kind := "W", file := "core/src/core/transaction.rs", ty := "NRDRelativeHeight", fp := 18030364605207477579, cover := .codec "NRDRelativeHeight" },
-  { kind := "R", file := "core/src/core/transaction.rs", ty := "NRDRelativeHeight", fp := 17628123021919472793, cover := .codec "NRDRelativeHeight" },
-  { kind := "W", file := "core/src/core/transaction.rs", ty := "KernelFeatures", fp := 6279981255255235810, cover := .codec "KernelFeatures" },
-  { kind := "R", file := "core/src/core/transaction.rs", ty := "KernelFeatures", fp := 7987342587378150143, cover := .codec "KernelFeatures" },
-  { kind := "W", file := "core/src/core/transaction.rs", ty := "TxKernel", fp := 12997356846628306323, cover := .codec "TxKernel" },
-  { kind := "R", file := "core/src/core/transaction.rs", ty := "TxKernel", fp := 11276017759871804281, cover := .codec "TxKernel" },
-  { kind := "W", file := "core/src/core/transaction.rs", ty := "TransactionBody", fp := 8129728334138387896, cover := .codec "TransactionBody" },
-  { kind := "R", file := "core/src/core/transaction.rs", ty := "TransactionBody", fp := 10027332572629185057, cover := .codec "TransactionBody" },
-  { kind := "W", file := "core/src/core/transaction.rs", ty := "Transaction", fp := 17541354398174163473, cover := .codec "Transaction" },
-  { kind := "R", file := "core/src/core/transaction.rs", ty := "Transaction", fp := 17235617951118540207, cover := .codec "Transaction" },
-  { kind := "W", file := "core/src/core/transaction.rs", ty := "Input", fp := 16612303032158788976, cover := .codec "Input" },
-  { kind := "R", file := "core/src/core/transaction.rs", ty := "Input", fp := 133769846287844486, cover := .codec "Input" },
-  { kind := "R", file := "core/src/core/transaction.rs", ty := "CommitWrapper", fp := 3176691936693125105, cover := .codec "CommitWrapper" },
-  { kind := "W", file := "core/src/core/transaction.rs", ty := "CommitWrapper", fp := 3411581397768903792, cover := .codec "CommitWrapper" },
-  { kind := "W", file := "core/src/core/transaction.rs", ty := "Inputs", fp := 12786778390674414679, cover := .inside "TransactionBody" },
-  { kind := "W", file := "core/src/core/transaction.rs", ty := "OutputFeatures", fp := 12502038373567022374, cover := .codec "OutputFeatures" },
-  { kind := "R", file := "core/src/core/transaction.rs", ty := "OutputFeatures", fp := 9704509646169683421, cover := .codec "OutputFeatures" },
-  { kind := "W", file := "core/src/core/transaction.rs", ty := "Output", fp := 9943244628170642258, cover := .codec "Output" },
-  { kind := "R", file := "core/src/core/transaction.rs", ty := "Output", fp := 11441112267370428393, cover := .codec "Output" },
-  { kind := "W", file := "core/src/core/transaction.rs", ty := "OutputIdentifier", fp := 1030607092183019372, cover := .codec "OutputIdentifier" },
-  { kind := "R", file := "core/src/core/transaction.rs", ty := "OutputIdentifier", fp := 5040240600994518503, cover := .codec "OutputIdentifier" },
-  { kind := "W", file := "core/src/pow/types.rs", ty := "Difficulty", fp := 9212097842194304534, cover := .inside "ProofOfWork" },
-  { kind := "R", file := "core/src/pow/types.rs", ty := "Difficulty", fp := 5155460539337894719, cover := .inside "ProofOfWork" },
-  { kind := "W", file := "core/src/pow/types.rs", ty := "ProofOfWork", fp := 17787278622699452295, cover := .codec "ProofOfWork" },
-  { kind := "R", file := "core/src/pow/types.rs", ty := "ProofOfWork", fp := 13155764587419208812, cover := .codec "ProofOfWork" },
-  { kind := "R", file := "core/src/pow/types.rs", ty := "Proof", fp := 1449596977994918447, cover := .codec "Proof" },
-  { kind := "W", file := "core/src/pow/types.rs", ty := "Proof", fp := 8402100999507608436, cover := .codec "Proof" },
+  { kind := "W", file := "chain/src/txhashset/bitmap_accumulator.rs", ty := "BitmapChunk", fp := 5303563164198709721, cover := .excluded "read() returns an empty chunk without reading anything; only elmt_size() is compared" },
+  { kind := "R", file := "chain/src/txhashset/bitmap_accumulator.rs", ty := "BitmapChunk", fp := 8649215477518312998, cover := .excluded "read() returns an empty chunk without reading anything; only elmt_size() is compared" },
+  { kind := "W", file := "chain/src/txhashset/bitmap_accumulator.rs", ty := "BitmapSegment", fp := 2875939427393187373, cover := .codec "BitmapSegment" },
+  { kind := "R", file := "chain/src/txhashset/bitmap_accumulator.rs", ty := "BitmapSegment", fp := 11021311911446069678, cover := .codec "BitmapSegment" },
+  { kind := "W", file := "chain/src/txhashset/bitmap_accumulator.rs", ty := "BitmapBlock", fp := 16934713243063111507, cover := .inside "BitmapSegment" },
+  { kind := "R", file := "chain/src/txhashset/bitmap_accumulator.rs", ty := "BitmapBlock", fp := 6750500208918571017, cover := .inside "BitmapSegment" },
+  { kind := "W", file := "chain/src/txhashset/bitmap_accumulator.rs", ty := "BitmapBlockSerialization", fp := 3467635176838667750, cover := .inside "BitmapSegment" },
+  { kind := "R", file := "chain/src/txhashset/bitmap_accumulator.rs", ty := "BitmapBlockSerialization", fp := 1629149026705705266, cover := .inside "BitmapSegment" },
   { kind := "W", file := "core/src/ser.rs", ty := "ProtocolVersion", fp := 10705240120713049226, cover := .codec "ProtocolVersion" },
   { kind := "R", file := "core/src/ser.rs", ty := "ProtocolVersion", fp := 1082119781786247314, cover := .codec "ProtocolVersion" },
   { kind := "R", file := "core/src/ser.rs", ty := "Commitment", fp := 10594668708737513949, cover := .codec "Commitment" },
@@ -118,8 +65,8 @@ def table : List Impl := [
   { kind := "R", file := "core/src/ser.rs", ty := "RangeProof", fp := 8721950850079491468, cover := .codec "RangeProof" },
   { kind := "R", file := "core/src/ser.rs", ty := "Signature", fp := 7487931390302334600, cover := .codec "Signature" },
   { kind := "W", file := "core/src/ser.rs", ty := "Signature", fp := 1340999516974731966, cover := .codec "Signature" },
-  { kind := "W", file := "core/src/ser.rs", ty := "PublicKey", fp := 13899773716238468637, cover := .excluded "33 bytes, then curve membership (crypto): decPublicKey takes the curve test as a parameter; not driven" },
-  { kind := "R", file := "core/src/ser.rs", ty := "PublicKey", fp := 5825954135719594184, cover := .excluded "33 bytes, then curve membership (crypto): decPublicKey takes the curve test as a parameter; not driven" },
+  { kind := "W", file := "core/src/ser.rs", ty := "PublicKey", fp := 16719126399090063257, cover := .codec "PublicKey" },
+  { kind := "R", file := "core/src/ser.rs", ty := "PublicKey", fp := 16685949521236425873, cover := .codec "PublicKey" },
   { kind := "W", file := "core/src/ser.rs", ty := "$int", fp := 10545460757063822127, cover := .codec "I32" },
   { kind := "R", file := "core/src/ser.rs", ty := "$int", fp := 10008978739733783062, cover := .codec "I32" },
   { kind := "R", file := "core/src/ser.rs", ty := "Vec<T>", fp := 15272977195626473128, cover := .codec "SpentIndex" },
@@ -131,8 +78,66 @@ def table : List Impl := [
   { kind := "W", file := "core/src/ser.rs", ty := "(A,B,C,D)", fp := 12077076575869550697, cover := .codec "TupleU64U32U16U8" },
   { kind := "R", file := "core/src/ser.rs", ty := "(A,B,C)", fp := 16201464470499349084, cover := .codec "TupleU64U32U16" },
   { kind := "R", file := "core/src/ser.rs", ty := "(A,B,C,D)", fp := 12917764557867418933, cover := .codec "TupleU64U32U16U8" },
+  { kind := "R", file := "core/src/core/block.rs", ty := "HeaderEntry", fp := 16737291068720728857, cover := .codec "HeaderEntry" },
+  { kind := "W", file := "core/src/core/block.rs", ty := "HeaderEntry", fp := 1217701135067885638, cover := .codec "HeaderEntry" },
+  { kind := "W", file := "core/src/core/block.rs", ty := "HeaderVersion", fp := 5028581958960092399, cover := .inside "BlockHeader" },
+  { kind := "R", file := "core/src/core/block.rs", ty := "HeaderVersion", fp := 959448273804940639, cover := .inside "BlockHeader" },
+  { kind := "W", file := "core/src/core/block.rs", ty := "BlockHeader", fp := 15664148342584641733, cover := .codec "BlockHeader" },
+  { kind := "R", file := "core/src/core/block.rs", ty := "BlockHeader", fp := 4137684409274746927, cover := .codec "BlockHeader" },
+  { kind := "R", file := "core/src/core/block.rs", ty := "UntrustedBlockHeader", fp := 10647930884851483129, cover := .wrapper "BlockHeader" },
+  { kind := "W", file := "core/src/core/block.rs", ty := "Block", fp := 943965860143290480, cover := .codec "Block" },
+  { kind := "R", file := "core/src/core/block.rs", ty := "Block", fp := 16231659000947403341, cover := .codec "Block" },
+  { kind := "R", file := "core/src/core/block.rs", ty := "UntrustedBlock", fp := 7749285828070582900, cover := .wrapper "Block" },
+  { kind := "W", file := "core/src/core/block_sums.rs", ty := "BlockSums", fp := 12298247856613963112, cover := .codec "BlockSums" },
+  { kind := "R", file := "core/src/core/block_sums.rs", ty := "BlockSums", fp := 10695976682704742528, cover := .codec "BlockSums" },
+  { kind := "R", file := "core/src/core/compact_block.rs", ty := "CompactBlockBody", fp := 17979999177181604132, cover := .inside "CompactBlock" },
+  { kind := "W", file := "core/src/core/compact_block.rs", ty := "CompactBlockBody", fp := 95652237703713746, cover := .inside "CompactBlock" },
+  { kind := "W", file := "core/src/core/compact_block.rs", ty := "CompactBlock", fp := 15812745975744560839, cover := .codec "CompactBlock" },
+  { kind := "R", file := "core/src/core/compact_block.rs", ty := "CompactBlock", fp := 12830994331310565096, cover := .codec "CompactBlock" },
+  { kind := "R", file := "core/src/core/compact_block.rs", ty := "UntrustedCompactBlock", fp := 5151033886974412351, cover := .wrapper "CompactBlock" },
+  { kind := "R", file := "core/src/core/hash.rs", ty := "Hash", fp := 11627468342407622040, cover := .codec "Hash" },
+  { kind := "W", file := "core/src/core/hash.rs", ty := "Hash", fp := 13521579811745524968, cover := .codec "Hash" },
+  { kind := "R", file := "core/src/core/id.rs", ty := "ShortId", fp := 8505078503105001035, cover := .codec "ShortId" },
+  { kind := "W", file := "core/src/core/id.rs", ty := "ShortId", fp := 392076427147519451, cover := .codec "ShortId" },
+  { kind := "W", file := "core/src/core/merkle_proof.rs", ty := "MerkleProof", fp := 17974608847545958878, cover := .codec "MerkleProof" },
+  { kind := "R", file := "core/src/core/merkle_proof.rs", ty := "MerkleProof", fp := 13847870145093195282, cover := .codec "MerkleProof" },
+  { kind := "W", file := "core/src/core/transaction.rs", ty := "FeeFields", fp := 14789684241461620416, cover := .inside "KernelFeatures" },
+  { kind := "R", file := "core/src/core/transaction.rs", ty := "FeeFields", fp := 17302961453335967290, cover := .inside "KernelFeatures" },
+  { kind := "W", file := "core/src/core/transaction.rs", ty := "NRDRelativeHeight", fp := 18030364605207477579, cover := .codec "NRDRelativeHeight" },
+  { kind := "R", file := "core/src/core/transaction.rs", ty := "NRDRelativeHeight", fp := 17628123021919472793, cover := .codec "NRDRelativeHeight" },
+  { kind := "W", file := "core/src/core/transaction.rs", ty := "KernelFeatures", fp := 15426875703777861159, cover := .codec "KernelFeatures" },
+  { kind := "R", file := "core/src/core/transaction.rs", ty := "KernelFeatures", fp := 7987342587378150143, cover := .codec "KernelFeatures" },
+  { kind := "W", file := "core/src/core/transaction.rs", ty := "TxKernel", fp := 12997356846628306323, cover := .codec "TxKernel" },
+  { kind := "R", file := "core/src/core/transaction.rs", ty := "TxKernel", fp := 11276017759871804281, cover := .codec "TxKernel" },
+  { kind := "W", file := "core/src/core/transaction.rs", ty := "TransactionBody", fp := 8129728334138387896, cover := .codec "TransactionBody" },
+  { kind := "R", file := "core/src/core/transaction.rs", ty := "TransactionBody", fp := 14085582125708284657, cover := .codec "TransactionBody" },
+  { kind := "W", file := "core/src/core/transaction.rs", ty := "Transaction", fp := 17541354398174163473, cover := .codec "Transaction" },
+  { kind := "R", file := "core/src/core/transaction.rs", ty := "Transaction", fp := 10719003822142822861, cover := .codec "Transaction" },
+  { kind := "W", file := "core/src/core/transaction.rs", ty := "Input", fp := 16612303032158788976, cover := .codec "Input" },
+  { kind := "R", file := "core/src/core/transaction.rs", ty := "Input", fp := 133769846287844486, cover := .codec "Input" },
+  { kind := "R", file := "core/src/core/transaction.rs", ty := "CommitWrapper", fp := 3176691936693125105, cover := .codec "CommitWrapper" },
+  { kind := "W", file := "core/src/core/transaction.rs", ty := "CommitWrapper", fp := 3411581397768903792, cover := .codec "CommitWrapper" },
+  { kind := "W", file := "core/src/core/transaction.rs", ty := "Inputs", fp := 17418718059150064246, cover := .inside "TransactionBody" },
+  { kind := "W", file := "core/src/core/transaction.rs", ty := "OutputFeatures", fp := 12502038373567022374, cover := .codec "OutputFeatures" },
+  { kind := "R", file := "core/src/core/transaction.rs", ty := "OutputFeatures", fp := 9704509646169683421, cover := .codec "OutputFeatures" },
+  { kind := "W", file := "core/src/core/transaction.rs", ty := "Output", fp := 9943244628170642258, cover := .codec "Output" },
+  { kind := "R", file := "core/src/core/transaction.rs", ty := "Output", fp := 11441112267370428393, cover := .codec "Output" },
+  { kind := "W", file := "core/src/core/transaction.rs", ty := "OutputIdentifier", fp := 1030607092183019372, cover := .codec "OutputIdentifier" },
+  { kind := "R", file := "core/src/core/transaction.rs", ty := "OutputIdentifier", fp := 5040240600994518503, cover := .codec "OutputIdentifier" },
+  { kind := "R", file := "core/src/core/pmmr/segment.rs", ty := "SegmentIdentifier", fp := 9801041526371888072, cover := .codec "SegmentIdentifier" },
+  { kind := "W", file := "core/src/core/pmmr/segment.rs", ty := "SegmentIdentifier", fp := 16461452423547564364, cover := .codec "SegmentIdentifier" },
+  { kind := "R", file := "core/src/core/pmmr/segment.rs", ty := "Segment<T>", fp := 403322782260545057, cover := .codec "KernelSegment" },
+  { kind := "W", file := "core/src/core/pmmr/segment.rs", ty := "Segment<T>", fp := 11636983310009263287, cover := .codec "KernelSegment" },
+  { kind := "R", file := "core/src/core/pmmr/segment.rs", ty := "SegmentProof", fp := 12004981906853538518, cover := .codec "SegmentProof" },
+  { kind := "W", file := "core/src/core/pmmr/segment.rs", ty := "SegmentProof", fp := 4388081014812089761, cover := .codec "SegmentProof" },
+  { kind := "W", file := "core/src/pow/types.rs", ty := "Difficulty", fp := 9212097842194304534, cover := .inside "ProofOfWork" },
+  { kind := "R", file := "core/src/pow/types.rs", ty := "Difficulty", fp := 5155460539337894719, cover := .inside "ProofOfWork" },
+  { kind := "W", file := "core/src/pow/types.rs", ty := "ProofOfWork", fp := 17787278622699452295, cover := .codec "ProofOfWork" },
+  { kind := "R", file := "core/src/pow/types.rs", ty := "ProofOfWork", fp := 13155764587419208812, cover := .codec "ProofOfWork" },
+  { kind := "R", file := "core/src/pow/types.rs", ty := "Proof", fp := 18420086654868361372, cover := .codec "Proof" },
+  { kind := "W", file := "core/src/pow/types.rs", ty := "Proof", fp := 8402100999507608436, cover := .codec "Proof" },
   { kind := "W", file := "p2p/src/msg.rs", ty := "MsgHeader", fp := 7640719642571426640, cover := .codec "MsgHeaderA" },
-  { kind := "R", file := "p2p/src/msg.rs", ty := "MsgHeaderWrapper", fp := 9191313309441590442, cover := .op "hdr" },
+  { kind := "R", file := "p2p/src/msg.rs", ty := "MsgHeaderWrapper", fp := 14275306092853327786, cover := .op "hdr" },
   { kind := "W", file := "p2p/src/msg.rs", ty := "Hand", fp := 15670633885952656270, cover := .codec "Hand" },
   { kind := "R", file := "p2p/src/msg.rs", ty := "Hand", fp := 9700804865571238123, cover := .codec "Hand" },
   { kind := "W", file := "p2p/src/msg.rs", ty := "Shake", fp := 409674931223803716, cover := .codec "Shake" },
@@ -171,15 +176,14 @@ def table : List Impl := [
   { kind := "R", file := "store/src/types.rs", ty := "SizeEntry", fp := 12640116360703881286, cover := .codec "SizeEntry" },
   { kind := "W", file := "store/src/types.rs", ty := "SizeEntry", fp := 6193756894538491228, cover := .codec "SizeEntry" }]
 
-/-- every codec name the table refers to (the driver answers the count line with `ok` only if its
+/-- every codec name the table refers to (the driver answers the `ser implcodecs` line with `ok` only if its
 dispatch knows each of them) -/
-def codecNames : List String := ["BanReason", "BitmapSegment", "BlindingFactor", "Block", "BlockHeader", "BlockSums", "CommitPos", "CommitWrapper", "Commitment", "CompactBlock", "GetPeerAddrs", "Hand", "Hash", "HeaderEntry", "Headers", "I32", "Identifier", "Input", "KernelFeatures", "KernelSegment", "KernelSegmentResponse", "Locator", "MerkleProof", "MsgHeaderA", "NRDRelativeHeight", "NrdEntry", "NrdList", "Output", "OutputBitmapSegmentResponse", "OutputFeatures", "OutputIdentifier", "OutputSegmentResponse", "PeerAddr", "PeerAddrs", "PeerData", "PeerError", "Ping", "Pong", "Proof", "ProofOfWork", "ProtocolVersion", "RangeProof", "SegmentIdentifier", "SegmentProof", "SegmentRequest", "Shake", "ShortId", "Signature", "SizeEntry", "SpentIndex", "Tip", "Transaction", "TransactionBody", "TupleU64U32", "TupleU64U32U16", "TupleU64U32U16U8", "TxHashSetArchive", "TxHashSetRequest", "TxKernel"]
+def codecNames : List String := ["BanReason", "BitmapSegment", "BlindingFactor", "Block", "BlockHeader", "BlockSums", "CommitPos", "CommitWrapper", "Commitment", "CompactBlock", "GetPeerAddrs", "Hand", "Hash", "HeaderEntry", "Headers", "I32", "Identifier", "Input", "KernelFeatures", "KernelSegment", "KernelSegmentResponse", "Locator", "MerkleProof", "MsgHeaderA", "NRDRelativeHeight", "NrdEntry", "NrdList", "Output", "OutputBitmapSegmentResponse", "OutputFeatures", "OutputIdentifier", "OutputSegmentResponse", "PeerAddr", "PeerAddrs", "PeerData", "PeerError", "Ping", "Pong", "Proof", "ProofOfWork", "ProtocolVersion", "PublicKey", "RangeProof", "SegmentIdentifier", "SegmentProof", "SegmentRequest", "Shake", "ShortId", "Signature", "SizeEntry", "SpentIndex", "Tip", "Transaction", "TransactionBody", "TupleU64U32", "TupleU64U32U16", "TupleU64U32U16U8", "TxHashSetArchive", "TxHashSetRequest", "TxKernel"]
 
 /-- the other driver ops the table refers to -/
 def opNames : List String := ["hdr"]
 
-def lookup (kind file ty : String) : Option Impl :=
-  table.find? fun i => i.kind == kind && i.file == file && i.ty == ty
+def Impl.key (i : Impl) : String × String × String × Nat := (i.kind, i.file, i.ty, i.fp)
 
 def Cover.ref? : Cover → Option String
   | .codec n => some n
@@ -188,11 +192,5 @@ def Cover.ref? : Cover → Option String
   | _ => none
 
 def count (kind : String) : Nat := (table.filter fun i => i.kind == kind).length
-
-/-- the model's answer to one `ser impl <kind> <file> <type> <fingerprint>` line -/
-def answer (kind file ty : String) (fp : Nat) : String :=
-  match lookup kind file ty with
-  | none => "unlisted"
-  | some i => if i.fp = fp then "listed" else s!"changed:{i.fp}"
 
 end GV.SerImpls
